@@ -5,7 +5,29 @@
 //   fibh <h> | ibh <h>   first_index_by_handle( h ) | index_by_handle( h )   ("inv" = invalid index)
 //   sweep <lo> <hi>      run-length encoded fibh and ibh for every handle lo..hi
 //   attr <i>             "<handle_by_index(i)> <attribute_at(i).uuid> <access result> <value read at offset 0>"
+//   acc <h>              access BY HANDLE through the real server<>::l2cap_input (fresh connection, MTU 23):
+//                        Read Request, Read Blob Request (offset 0), Write Request and Find Information h..h;
+//                        prints "r:<c> b:<c> w:<c> f:<response hex>" with <c> = inv (Error Response Invalid
+//                        Handle for h) | ok:<value hex> (read, blob) | acc@<handle> (write accepted or refused
+//                        with an error that names <handle>) | err@<handle> (other error naming <handle>) | ?<hex>.
+//                        The write payload is the value just read (or one 0 byte), so the probe leaves
+//                        every readable value as it was.
+#define VERIF_ATT_WITH_PDU
 #include "atthandles/server_if.hpp"
+
+static std::string acc_class( const std::vector< std::uint8_t >& rsp, std::uint8_t op, std::uint8_t succ, unsigned h, bool write )
+{
+    if ( rsp.size() == 5 && rsp[ 0 ] == 0x01 && rsp[ 1 ] == op )
+    {
+        const unsigned eh = rsp[ 2 ] | ( rsp[ 3 ] << 8 );
+        if ( rsp[ 4 ] == 0x01 && eh == h )
+            return "inv";
+        return std::string( write ? "acc@" : "err@" ) + verif::hex16( eh );
+    }
+    if ( !rsp.empty() && rsp[ 0 ] == succ )
+        return write ? "acc@" + verif::hex16( h ) : "ok:" + verif::to_hex( rsp.data() + 1, rsp.size() - 1 );
+    return "?" + verif::to_hex( rsp );
+}
 
 int main()
 {
@@ -35,6 +57,21 @@ int main()
                 out[ which ] += cur + "*" + std::to_string( run );
             }
             return "f " + out[ 0 ] + " i " + out[ 1 ];
+        }
+        if ( w[ 0 ] == "acc" && one && a <= 0xffff )
+        {
+            const std::uint8_t l = a & 0xff, u = a >> 8;
+            const std::vector< std::uint8_t > r = s->pdu( 23, { 0x0a, l, u } );
+            const std::vector< std::uint8_t > b = s->pdu( 23, { 0x0c, l, u, 0, 0 } );
+            std::vector< std::uint8_t > wr = { 0x12, l, u };
+            if ( r.size() > 1 && r[ 0 ] == 0x0b )
+                wr.insert( wr.end(), r.begin() + 1, r.end() );
+            else
+                wr.push_back( 0 );
+            const std::vector< std::uint8_t > wrsp = s->pdu( 23, wr );
+            const std::vector< std::uint8_t > f = s->pdu( 23, { 0x04, l, u, l, u } );
+            return "r:" + acc_class( r, 0x0a, 0x0b, a, false ) + " b:" + acc_class( b, 0x0c, 0x0d, a, false )
+                + " w:" + acc_class( wrsp, 0x12, 0x13, a, true ) + " f:" + verif::to_hex( f );
         }
         if ( w[ 0 ] == "attr" && one && a < s->n_attrs() )
         {
